@@ -45,7 +45,7 @@ type C03Unit struct {
 	ShortRead int           `json:"short_read_every"`
 }
 
-var c03Modes = []uint32{0644, 0600, 0640, 0444, 0755}
+var c03Modes = []uint32{0644, 0600, 0640, 0444, 0755, 0664, 0666, 0777}
 
 func (c03) Units(tier string, seed int64) ([]core.Unit, error) {
 	var units []core.Unit
@@ -65,7 +65,7 @@ func (c03) Units(tier string, seed int64) ([]core.Unit, error) {
 				// one seeded mode per (op, rel) besides the default
 				modes = []uint32{c03Modes[rng.IntN(len(c03Modes))]}
 			}
-			if o.OutDirOp || rel == ops.RelNew {
+			if rel == ops.RelNew || (o.OutDirOp && rel != "populated") {
 				modes = []uint32{0}
 			}
 			for _, m := range modes {
@@ -338,6 +338,12 @@ func c03Run(u C03Unit) (vs []core.Violation, nontrivial bool, sample any, steps 
 				mk("output-unreadable", "", fmt.Sprintf("output %s cannot be read back: %v", k, obsErr[k]))
 			} else if got != want {
 				mk("output-differs", "", fmt.Sprintf("output %s differs from the reference run:\n%s", k, lineDiff(got, want)))
+			}
+		}
+		// (2) a replaced pre-existing file keeps its permission bits
+		for k, e0 := range r.S0 {
+			if e1, ok := r.S1[k]; ok && e0.Type == "file" && e1.Type == "file" && !simfs.SameEntry(e0, e1) && e0.Perm != e1.Perm {
+				mk("mode-changed", "", fmt.Sprintf("replaced output %s had mode %04o before and %04o after", k, e0.Perm, e1.Perm))
 			}
 		}
 	} else {
